@@ -47,6 +47,10 @@ CHECKS = {
    text="Twin-world simulation: a generated scene with constant parameters (all track kinds, sends, every built-in effect incl. nested delay feedback, static and streaming sounds at any rate / loop / pan) is rendered in three worlds that differ only in internal buffer size (1..4096) and callback partition (1-frame, non-multiples, zero-frame, one huge callback). Streams are compared frame by frame: bit-for-bit without recursive effects / spatialization, |d| <= 1e-6 with them.",
    note="Constant parameters only (no modulators, tweens, delayed or clock starts), as the property states; streaming decoders are kept ahead by the gate scheduler.",
    technique="deterministic simulation, metamorphic twin worlds over the device's callback partition and the configured buffer size"),
+ "C12": dict(level="exploration", design="3 C12",
+   text="Track trees with a probe effect per track, probe sounds (every call logged) and static sounds with start delays run through the real manager on the simulated device under a seeded history of pause (with fades), resume now / delayed / at a clock time, clock start / drop, and handle drops of parents, children and sounds in any order with persistence on or off. Freeze oracle: once a pause fade has surely ended (per-track local clocks with lower and upper bounds) nothing beneath the node is called, static sounds keep their position and their start delays stop counting; no jump after the resume. Removal oracle: a track is processed as long as its handle, a descendant's handle or - if persistent - an unfinished sound keeps it alive, and is gone two callbacks after nothing does. State oracle: TrackHandle::state() never panics, is one of the five states, equals Paused / Playing once the model is sure.",
+   note="Pause and resume of one track are not issued in the same gap. Three defects found here were repaired (track removed with a sound / child still queued; state() panic after resume_at on a removed clock).",
+   technique="deterministic simulation of op histories against a life-cycle / ownership model with interval-valued local time; probe call logs as observations"),
 }
 NA = [
  ("C13", "pure DSP laws of (parameters, sample rate, input signal): no schedule, clock, fault or interleaving for a simulator to control; see DESIGN.md section 5"),
